@@ -24,7 +24,8 @@ struct Pool {
 /// One symbolic operation on the pool. Every branch keeps `live` = number of non-empty handles.
 fn step(p: &mut Pool, base: &Arc<Pay>, v: u32) {
     let op: u8 = nd::any();
-    nd::assume(op < 10);
+    nd::assume(op < 11);
+    nd::cover!(op == 10 && p.s0.as_ref().is_none() && p.s1.as_ref().is_some(), "clone_from an empty handle into a non-empty one");
     nd::cover!(op == 0 && p.s0.as_ref().is_some() && p.s1.as_ref().is_none(), "clone of a non-empty handle");
     nd::cover!(op == 0 && p.s0.as_ref().is_none(), "clone of an empty handle");
     nd::cover!(op == 5 && p.s1.as_ref().is_some(), "CArcSome clone");
@@ -99,6 +100,17 @@ fn step(p: &mut Pool, base: &Arc<Pay>, v: u32) {
             assert!(c.as_ref().is_some() == (n == 1));
             assert!(Arc::strong_count(base) == 1 + p.live + n);
             drop(c);
+        }
+        10 => {
+            // Clone::clone_from (whatever its implementation): the target releases what it held and becomes a copy
+            if p.s1.as_ref().is_some() {
+                p.live -= 1;
+            }
+            if p.s0.as_ref().is_some() {
+                p.live += 1;
+            }
+            p.s1.clone_from(&p.s0);
+            assert!(p.s1.as_ref().is_some() == p.s0.as_ref().is_some(), "clone_from: empty clones to empty, non-empty to non-empty");
         }
         _ => {
             if p.o.as_ref().is_some() {
